@@ -3,10 +3,11 @@
 (* Binding of DiffMerge.tla to the code: every recorded case is one input   *)
 (* of DiffMerge (two partitions with connection values) together with the   *)
 (* ip-block entries the real ConnDiffFromDirPaths produced for it, with     *)
-(* their exact ranges.  The case is accepted iff those entries are exactly   *)
-(* the set DiffMerge!Out predicts (for some choice of representatives - as   *)
-(* built the choice does not matter), the run succeeded and the result has   *)
-(* no other ip-block entries.                                                *)
+(* their exact ranges.  The case is accepted iff those entries are point-    *)
+(* wise exact for the case's two sides (DiffMerge!PointwiseOK: the C04       *)
+(* statement), the run succeeded and the result has no other ip-block        *)
+(* entries; entries that differ from DiffMerge!Out (another way of merging)  *)
+(* are reported as design drift.                                             *)
 (***************************************************************************)
 EXTENDS DiffMerge, Json, IOUtils
 
@@ -22,20 +23,27 @@ Obs(ev) == {[lo |-> e.lo, hi |-> e.hi, c1 |-> e.c1, c2 |-> e.c2, type |-> e.type
 
 TInit == l = 1 /\ b1 = <<[lo |-> 0, hi |-> N - 1, c |-> None]>> /\ b2 = <<[lo |-> 0, hi |-> N - 1, c |-> None]>> /\ mism = 0
 
+(* The verdict is the C04 statement itself, point by point (PointwiseOK on the case's partitions).  HOW the ranges of equal      *)
+(* pairs are merged is the design's business: entries that are point-wise right but are not the set DiffMerge!Out predicts are  *)
+(* reported as design drift (DRIFT line), not as a mismatch.                                                                   *)
 CaseMismatches(ev) ==
   LET obs == Obs(ev)
-      expected == {Out(rep) : rep \in RepChoices}'      \* evaluated on the case's partitions (b1', b2')
   IN (IF ev.outcome # "ok" THEN {<<"C04-diffmerge-run-failed", ev.outcome, ev.msg>>} ELSE {})
-     \cup (IF ev.outcome = "ok" /\ obs \notin expected
-           THEN {<<"C04-diffmerge-entries", ev.dir, "expected", ToString(CHOOSE x \in expected : TRUE), "observed", ToString(obs)>>} ELSE {})
+     \cup (IF ev.outcome = "ok" /\ ~PointwiseOKFor(Blocks(ev.b1), Blocks(ev.b2), obs)
+           THEN {<<"C04-diffmerge-point", ev.dir, "side1", ToString(ev.b1), "side2", ToString(ev.b2), "observed-entries", ToString(obs)>>} ELSE {})
      \cup (IF Len(ev.stray) > 0 THEN {<<"C04-diffmerge-stray-entries", ev.dir, ToString(ev.stray)>>} ELSE {})
      \cup (IF ev.outcome = "ok" /\ Len(ev.entries) # Cardinality(obs) THEN {<<"C04-diffmerge-duplicate-entries", ev.dir, ToString(ev.entries)>>} ELSE {})
+CaseDrift(ev) ==
+  LET obs == Obs(ev)
+      expected == {Out(rep) : rep \in RepChoices}'
+  IN ev.outcome = "ok" /\ obs \notin expected
 
 TraceCase ==
   /\ l <= Len(Trace) /\ Trace[l].ev = "Case" /\ l' = l + 1
   /\ b1' = Blocks(Trace[l].b1) /\ b2' = Blocks(Trace[l].b2)
   /\ LET ms == CaseMismatches(Trace[l])
      IN /\ \A m \in ms : PrintT("MISMATCH " \o ToJson([line |-> l, wid |-> Trace[l].id, m |-> m]))
+        /\ (CaseDrift(Trace[l]) => PrintT("DRIFT " \o ToJson([line |-> l, wid |-> Trace[l].id, observed |-> ToString(Obs(Trace[l]))])))
         /\ mism' = mism + Cardinality(ms)
 
 TNext == TraceCase
